@@ -385,7 +385,9 @@ where
     }
 
     fn first_byte(&mut self) -> Result<Option<(usize, usize, u8)>, Error> {
-        let mut line_num = 0;
+        // lines (and bytes) consumed by an earlier call that failed with an
+        // I/O error are remembered in `self.position`
+        let mut line_num = self.position.line as usize;
 
         while fill_buf(&mut self.buf_reader)? > 0 {
             let mut pos = 0;
@@ -405,6 +407,7 @@ where
             line_num -= 1;
             let consumed = pos - 1 - last_line_len;
             self.position.byte += consumed as u64;
+            self.position.line = line_num as u64;
             self.buf_reader.consume(consumed);
             self.buf_reader.make_room();
         }
